@@ -12,7 +12,7 @@ VERIF = os.path.dirname(os.path.dirname(os.path.abspath(__file__)))
 REPO = os.environ.get("VERIF_REPO", "/repo")
 SPEC = os.path.join(VERIF, "spec")
 WORK = os.path.join(VERIF, "work")
-HARNESS = os.path.join(VERIF, "harness")
+HARNESS = os.environ.get("VERIF_HARNESS", os.path.join(VERIF, "harness"))
 VH = os.path.join(HARNESS, "target", "release", "vh")
 EVIDENCE = os.path.join(VERIF, "evidence")
 REPLAY = os.path.join(VERIF, "replay")
